@@ -46,8 +46,101 @@ type Heap struct {
 	Vars  map[string]*HCell
 	Names []string // variables + "$"
 	// witnesses of known findings switch the corresponding generator exclusion off
-	allowAliasedPad bool
-	allowMethodKeys bool
+	allowAliasedPad  bool
+	allowMethodKeys  bool
+	allowChainCreate bool
+}
+
+// chainIndependent: `T = (S = v)` is only generated when resolving T before or
+// after the inner assignment addresses the same location (the statement does
+// not fix that order): T has no negative index, and the existing cell S
+// addresses is not one of the cells T passes through.
+func (h *Heap) chainIndependent(t, s HPath) bool {
+	for _, st := range t.Steps {
+		if st.IsIdx && st.Idx < 0 {
+			return false
+		}
+	}
+	// the existing cell addressed by s (nil if missing)
+	sc := h.cell(s.Base)
+	for _, st := range s.Steps {
+		if sc == nil {
+			break
+		}
+		switch sc.V.K {
+		case 'o':
+			sc = sc.V.Obj.M[st.Key]
+		case 'a':
+			idx := st.Idx
+			if idx < 0 {
+				idx += len(sc.V.Arr.Items)
+			}
+			if idx < 0 || idx >= len(sc.V.Arr.Items) {
+				sc = nil
+			} else {
+				sc = sc.V.Arr.Items[idx]
+			}
+		default:
+			sc = nil
+		}
+	}
+	if sc == nil {
+		return true
+	}
+	tc := h.cell(t.Base)
+	for i, st := range t.Steps {
+		if tc == sc {
+			return false // T passes through the cell the inner assignment overwrites
+		}
+		_ = i
+		switch tc.V.K {
+		case 'o':
+			tc = tc.V.Obj.M[st.Key]
+		case 'a':
+			if st.Idx >= len(tc.V.Arr.Items) {
+				return true
+			}
+			tc = tc.V.Arr.Items[st.Idx]
+		default:
+			return true
+		}
+		if tc == nil {
+			return true
+		}
+	}
+	return true
+}
+
+// createsIntermediate: does writing to p have to create a location on the way
+// to the final one (a missing member or index before the last step)?
+func (h *Heap) createsIntermediate(p HPath) bool {
+	v := h.cell(p.Base).V
+	for i, s := range p.Steps {
+		if i == len(p.Steps)-1 {
+			return false
+		}
+		switch v.K {
+		case 'o':
+			m, ok := v.Obj.M[s.Key]
+			if !ok {
+				return true
+			}
+			v = m.V
+		case 'a':
+			idx := s.Idx
+			if idx < 0 {
+				idx += len(v.Arr.Items)
+			}
+			if idx < 0 || idx >= len(v.Arr.Items) {
+				return true
+			}
+			v = v.Arr.Items[idx].V
+		default:
+			// unset base (converted when the left side is evaluated) or anything else: the next location is missing
+			return true
+		}
+	}
+	return false
 }
 
 func (h *Heap) cell(name string) *HCell {
@@ -229,6 +322,7 @@ function repl(o) { o = [777]
 function incp(n) { n++
  n += 10
  return n }
+function pair(pa, pb) { return [pa, pb] }
 `
 
 // Render the statement(s) for an op. Reads print "R" lines themselves.
@@ -268,6 +362,18 @@ func (op *HOp) render() string {
 		return fmt.Sprintf("for (fe in %s) { if (fe is object) { fe.%s = %s } }", op.T.String(), op.Key, litText(op.Lit))
 	case "forin-rebind":
 		return fmt.Sprintf("for (fe in %s) { fe = %s }", op.T.String(), litText(op.Lit))
+	case "chain-assign":
+		// T = (S = lit): the right-hand side is itself an assignment
+		return op.T.String() + " = (" + op.Src.String() + " = " + litText(op.Lit) + ")"
+	case "lit-alias":
+		// a list whose later entry assigns the variable an earlier entry reads: scalars are copied when inserted
+		return fmt.Sprintf("%s = [%s, %s = %s, %s]", op.T.String(), op.Src.String(), op.Src.String(), litText(op.Lit), op.Src.String())
+	case "arg-alias":
+		return fmt.Sprintf("print \"R\", [pair(%s, %s += 1)]", op.Src.String(), op.Src.String())
+	case "forin-incr":
+		return fmt.Sprintf("for (fe in %s) { fe%s }", op.T.String(), op.Op)
+	case "forin-kv-incr":
+		return fmt.Sprintf("for (fk, fe in %s) { fe%s }", op.T.String(), op.Op)
 	case "insert-scalar":
 		// x = scalar; arr-literal/object holding x; then x changes: the container keeps the old scalar
 		return fmt.Sprintf("%s = [%s, {held: %s}]\n%s = \"changed\"", op.T.String(), op.Src.String(), op.Src.String(), op.Src.String())
@@ -708,6 +814,112 @@ func (h *Heap) apply(op *HOp) (string, error) {
 			h.cell("fe").V = fromJVal(r.Values[0].V)
 		}
 		return "", nil
+	case "chain-assign":
+		r := ScanStream([]byte(op.Lit))
+		if r.Status != RefClean || len(r.Values) != 1 {
+			return "", errUnsupported{"bad literal"}
+		}
+		lit := fromJVal(r.Values[0].V)
+		if lit.isContainer() {
+			return "", errUnsupported{"container literal (would be shared)"}
+		}
+		if err := h.prevalidateWrite(*op.Src); err != nil {
+			return "", err
+		}
+		if err := h.prevalidateWrite(op.T); err != nil {
+			return "", err
+		}
+		if h.createsIntermediate(op.T) && !h.allowChainCreate {
+			return "", errUnsupported{"outer target needs a missing intermediate that the inner assignment may create first (known finding K8)"}
+		}
+		if !h.chainIndependent(op.T, *op.Src) {
+			return "", errUnsupported{"the order of resolving the outer target and running the inner assignment would matter"}
+		}
+		// the inner assignment happens first, then the outer one
+		c1, err := h.resolveForWrite(*op.Src)
+		if err != nil {
+			return "", err
+		}
+		c1.V, c1.absent = lit, false
+		if err := h.prevalidateWrite(op.T); err != nil {
+			return "", errUnsupported{"outer target invalid after the inner assignment"}
+		}
+		c2, err := h.resolveForWrite(op.T)
+		if err != nil {
+			return "", err
+		}
+		c2.V, c2.absent = lit, false
+		return "", nil
+	case "lit-alias":
+		src, err := h.readPath(*op.Src)
+		if err != nil {
+			return "", err
+		}
+		r := ScanStream([]byte(op.Lit))
+		if r.Status != RefClean || len(r.Values) != 1 {
+			return "", errUnsupported{"bad literal"}
+		}
+		lit := fromJVal(r.Values[0].V)
+		if len(op.Src.Steps) != 0 || len(op.T.Steps) != 0 || src.isContainer() || src.K == 'u' || lit.isContainer() || op.Src.Base == op.T.Base || op.Src.Base == "$" {
+			return "", errUnsupported{"lit-alias needs two distinct variables and scalars"}
+		}
+		h.cell(op.T.Base).V = HV{K: 'a', Arr: &HArr{Items: []*HCell{{V: src}, {V: lit}, {V: lit}}}}
+		h.cell(op.Src.Base).V = lit
+		return "", nil
+	case "arg-alias":
+		src, err := h.readPath(*op.Src)
+		if err != nil {
+			return "", err
+		}
+		if len(op.Src.Steps) != 0 || src.K != 'n' || op.Src.Base == "$" {
+			return "", errUnsupported{"arg-alias needs a numeric variable"}
+		}
+		h.cell(op.Src.Base).V = hNum(src.Num + 1)
+		return "[[" + fmtNum(src.Num) + "," + fmtNum(src.Num+1) + "]]", nil
+	case "forin-incr", "forin-kv-incr":
+		v, err := h.readPath(op.T)
+		if err != nil {
+			return "", err
+		}
+		delta := 1.0
+		if op.Op == "--" {
+			delta = -1
+		}
+		var last *HV
+		if op.Kind == "forin-incr" {
+			if v.K != 'a' {
+				return "", errUnsupported{"forin needs an array"}
+			}
+			for _, c := range v.Arr.Items {
+				if c.V.K != 'n' {
+					return "", errUnsupported{"forin-incr needs numbers"}
+				}
+			}
+			if n := len(v.Arr.Items); n > 0 {
+				last = &v.Arr.Items[n-1].V
+			}
+		} else {
+			if v.K != 'o' {
+				return "", errUnsupported{"forin-kv needs an object"}
+			}
+			keys := make([]string, 0, len(v.Obj.M))
+			for k, c := range v.Obj.M {
+				if c.V.K != 'n' {
+					return "", errUnsupported{"forin-kv-incr needs numbers"}
+				}
+				keys = append(keys, k)
+			}
+			sort.Strings(keys)
+			if len(keys) > 0 {
+				last = &v.Obj.M[keys[len(keys)-1]].V
+				h.cell("fk").V = HV{K: 's', Str: keys[len(keys)-1]}
+			}
+		}
+		// the container is untouched; the loop variable ends as the last element +/- 1
+		if last != nil {
+			h.cell("fe").V = hNum(last.Num + delta)
+		}
+		return "", nil
 	case "insert-scalar":
 		src, err := h.readPath(*op.Src)
 		if err != nil {
@@ -731,8 +943,9 @@ type HeapCase struct {
 	Vars []string `json:"vars"`
 	Ops  []HOp    `json:"ops"`
 	// only set in the pinned witnesses of known findings K1 / K3
-	AllowAliasedPad bool `json:"allow_aliased_pad,omitempty"`
-	AllowMethodKeys bool `json:"allow_method_keys,omitempty"`
+	AllowAliasedPad  bool `json:"allow_aliased_pad,omitempty"`
+	AllowMethodKeys  bool `json:"allow_method_keys,omitempty"`
+	AllowChainCreate bool `json:"allow_chain_create,omitempty"`
 }
 
 func (c *HeapCase) dumpStmt() string {
@@ -740,7 +953,7 @@ func (c *HeapCase) dumpStmt() string {
 	for _, v := range c.Vars {
 		parts = append(parts, "["+v+"]")
 	}
-	parts = append(parts, "[fe]", "[$]")
+	parts = append(parts, "[fe]", "[fk]", "[$]")
 	return strings.Join(parts, ", ")
 }
 
@@ -884,8 +1097,8 @@ func (c *HeapCase) newHeap() (*Heap, bool) {
 	if r.Status != RefClean || len(r.Values) != 1 || r.Values[0].V.Kind != 'o' {
 		return nil, false
 	}
-	h := &Heap{Vars: map[string]*HCell{}, allowAliasedPad: c.AllowAliasedPad, allowMethodKeys: c.AllowMethodKeys}
-	h.Names = append(append([]string{}, c.Vars...), "fe", "$")
+	h := &Heap{Vars: map[string]*HCell{}, allowAliasedPad: c.AllowAliasedPad, allowMethodKeys: c.AllowMethodKeys, allowChainCreate: c.AllowChainCreate}
+	h.Names = append(append([]string{}, c.Vars...), "fe", "fk", "$")
 	h.cell("$").V = fromJVal(r.Values[0].V)
 	return h, true
 }
@@ -895,7 +1108,7 @@ func (h *Heap) dump(vars []string) []string {
 	for _, v := range vars {
 		out = append(out, "["+h.cell(v).V.canon()+"]")
 	}
-	out = append(out, "["+h.cell("fe").V.canon()+"]", "["+h.cell("$").V.canon()+"]")
+	out = append(out, "["+h.cell("fe").V.canon()+"]", "["+h.cell("fk").V.canon()+"]", "["+h.cell("$").V.canon()+"]")
 	return out
 }
 
@@ -973,7 +1186,7 @@ func runHeapCase(c *HeapCase, keep bool) Outcome {
 			if vals[k] != w.vals[k] {
 				name := "result"
 				if w.tag == "S" {
-					names := append(append([]string{}, c.Vars...), "fe", "$")
+					names := append(append([]string{}, c.Vars...), "fe", "fk", "$")
 					name = names[k]
 				}
 				o.Class = "state-mismatch"
@@ -1094,7 +1307,21 @@ func genHeapCase(t *Tape, maxOps int) *HeapCase {
 	n := 3 + t.Draw(maxOps)
 	for tries := 0; len(c.Ops) < n && tries < n*8; tries++ {
 		var op HOp
-		switch t.Weighted(6, 6, 3, 3, 5, 3, 1, 1, 1) {
+		switch t.Weighted(6, 6, 3, 3, 5, 3, 1, 1, 1, 2, 1, 1, 1, 1) {
+		case 9:
+			src := genHeapPath(t, h, c.Vars, true)
+			op = HOp{Kind: "chain-assign", T: genHeapPath(t, h, c.Vars, true), Src: &src, Lit: heapScalarLits[t.Draw(len(heapScalarLits))]}
+		case 10:
+			a, b := t.Draw(nv), t.Draw(nv)
+			src := HPath{Base: c.Vars[b]}
+			op = HOp{Kind: "lit-alias", T: HPath{Base: c.Vars[a]}, Src: &src, Lit: heapScalarLits[t.Draw(len(heapScalarLits))]}
+		case 11:
+			src := HPath{Base: c.Vars[t.Draw(nv)]}
+			op = HOp{Kind: "arg-alias", Src: &src}
+		case 12:
+			op = HOp{Kind: "forin-incr", T: genHeapPath(t, h, c.Vars, false), Op: []string{"++", "--"}[t.Draw(2)]}
+		case 13:
+			op = HOp{Kind: "forin-kv-incr", T: genHeapPath(t, h, c.Vars, false), Op: []string{"++", "--"}[t.Draw(2)]}
 		case 0:
 			op = HOp{Kind: "assign-lit", T: genHeapPath(t, h, c.Vars, true)}
 			if t.Chance(1, 2) {
@@ -1223,6 +1450,25 @@ func (h *Heap) dryRun(op *HOp) error {
 			return errUnsupported{"insert-scalar"}
 		}
 		return nil
+	case "chain-assign":
+		// both targets must be writable and must not influence each other's resolution: keep to distinct bases
+		if op.Src.Base == op.T.Base && (len(op.Src.Steps) == 0 || len(op.T.Steps) == 0) {
+			return errUnsupported{"chain-assign on a variable and its own member"}
+		}
+		if err := h.prevalidateWrite(*op.Src); err != nil {
+			return err
+		}
+		if h.createsIntermediate(op.T) && !h.allowChainCreate {
+			return errUnsupported{"known finding K8"}
+		}
+		if !h.chainIndependent(op.T, *op.Src) {
+			return errUnsupported{"order-dependent chain assignment"}
+		}
+		return h.prevalidateWrite(op.T)
+	case "lit-alias", "arg-alias", "forin-incr", "forin-kv-incr":
+		// cheap to decide by running it on a throw-away heap built from the same history is not available here:
+		// these kinds validate all their preconditions before mutating, so apply itself is the dry run
+		return nil
 	}
 	return errUnsupported{"unknown"}
 }
@@ -1246,13 +1492,14 @@ func registerC09() {
 			"no fault or interleaving dimension exists for this property; what the harness contributes is seeded history search, per-step model conformance, minimisation and replay",
 			"known finding K1: no length-changing write (past-the-end index) on an array that the reference heap sees through two or more cells",
 			"known finding K3: member names are never names of prototype methods",
+			"known finding K8: in `T = (S = v)` the outer target T never needs a missing intermediate (only its final location may be new)",
 			"statement-silent cases are not generated: fractional indices, numeric index on an object, member of an array, writes through explicit nulls or scalars, reads through unset variables, cycles",
 			"strings contain no quotes or escapes, so the printed rendering parses unambiguously; key order is ignored",
 		},
 		Components: libComponents,
 		Workloads: []*Workload{
-			mk("histories", map[string]int{"quick": 60000, "thorough": 5000000}, 14),
-			mk("long-histories", map[string]int{"quick": 6000, "thorough": 500000}, 40),
+			mk("histories", map[string]int{"quick": 400000, "thorough": 8000000}, 14),
+			mk("long-histories", map[string]int{"quick": 40000, "thorough": 800000}, 40),
 		},
 	})
 }
